@@ -377,6 +377,8 @@ def r6_time_search(cx):
                 ok = True
             # look-up with a default:  v = format_conversion_for.get(match.group(1)); if v is None: raise
             for t, p in g:
+                if p and t in ("format_conversion_for.get(match.group(1)) is None", "format_conversion_for.get(match.group(1), None) is None"):
+                    ok = True
                 if p and t.endswith(" is None") and t[:-8].isidentifier():
                     ds = assigns_to(rep[0], t[:-8])
                     if len(ds) == 1 and U(ds[0].value) in ("format_conversion_for.get(match.group(1))", "format_conversion_for.get(match.group(1), None)"):
